@@ -17,7 +17,7 @@
     FINITE SWEEPS over the regenerated tables (bound in the statement):
     [C13_active_ascii_escaped] (10 characters x 2 tables x 5 schemes),
     [C13_single_characters_parse] (every key of either table x 5 schemes:
-    1512 + 2237 entries today), [C13_known_findings_are_exact] /
+    1512 + 2233 entries today), [C13_known_findings_are_exact] /
     [C13_known_findings_fail] (the 13 known findings), and the
     bounded-exhaustive [C13_active_orderings_bounded] (every string of length
     <= 3 over the ten active characters, a letter and a space).
